@@ -221,7 +221,7 @@ def tlc(cwd, module, cfg=None, workers=None, timeout=900, simulate=None, depth=N
     m = re.search(r"Invariant (\S+) is violated", r.output)
     if m:
         r.violated = m.group(1)
-    m2 = re.search(r"(?:Action property|Temporal properties|property) (\S+)? ?(?:is|were) violated", r.output)
+    m2 = re.search(r"(?:Action property|Temporal properties|Temporal property|property) (\S+)? ?(?:is|were|was) violated", r.output)
     if m2 and not r.violated:
         r.violated = m2.group(1) or "property"
     if "Deadlock reached" in r.output and not r.violated:
